@@ -165,10 +165,15 @@ def cosetNumbers (n : Nat) : List Nat := (basePairs n).map fun p => p.1 * p.2
 /-- `get_number(n,'order')`: the running product `ret * (x-1) * (x>>1)` -/
 def order (n : Nat) : Nat := (basePairs n).foldl (fun acc p => acc * p.1 * p.2) 1
 
-/-- a tuple is in range for `from_int_tuple`: entry `i` below the `i`-th base -/
-def inRange (t : List (Nat × Nat)) : Bool :=
-  (List.range t.length).all fun i =>
-    (t.getD i (0, 0)).1 < 4 ^ (i + 1) - 1 && (t.getD i (0, 0)).2 < 4 ^ (i + 1) / 2
+/-- in-range test on the reversed list of pairs: the head is the pair of level `n = length` and must be
+below the bases `(4^n − 1, 4^n / 2)` -/
+def inRangeRev : List (Nat × Nat) → Bool
+  | [] => true
+  | (a, b) :: rest =>
+    decide (a < 4 ^ (rest.length + 1) - 1) && decide (b < 4 ^ (rest.length + 1) / 2) && inRangeRev rest
+
+/-- a tuple is in range for `from_int_tuple`: entry `i` below the `i`-th base of `get_number(n,'base')` -/
+def inRange (t : List (Nat × Nat)) : Bool := inRangeRev t.reverse
 
 /-! ### the symplectic group, matrix product -/
 
